@@ -20,12 +20,16 @@ EXTENDS Integers, Sequences, FiniteSets, TLC, Json
 CONSTANTS Batches,        \* set of file sequences (every order of every batch explored)
           Need, NProcs, SharedPerChunk, Export,
           OptSets,        \* command-line option values <<distribution_mc, distribution_fn>> explored
-          SwapOptions     \* FALSE (design): the writer receives the options as given; TRUE: negative configuration
+          SwapOptions,    \* FALSE (design): the writer receives the options as given; TRUE: negative configuration
+          AnyChunking     \* TRUE (property tier): ANY chunk size 1..ntasks - the property speaks of "the chunking they induce",
+                          \* it does not fix which one (ceil instead of floor is as good); FALSE: today's max(1, ntasks \div nproc)
 
-VARIABLES Files, NProc, opts   \* chosen in Init, constant along a behaviour
+VARIABLES Files, NProc, opts,  \* chosen in Init, constant along a behaviour
+          csz                  \* the chunk size, chosen in Init as well
 
 NTasks    == Len(Files)
-ChunkSize == IF NTasks \div NProc >= 1 THEN NTasks \div NProc ELSE 1
+TodayChunkSize == IF NTasks \div NProc >= 1 THEN NTasks \div NProc ELSE 1
+ChunkSize == csz
 NChunks   == (NTasks + ChunkSize - 1) \div ChunkSize
 Chunk(c)  == SubSeq(Files, (c - 1) * ChunkSize + 1, IF c * ChunkSize <= NTasks THEN c * ChunkSize ELSE NTasks)
 NWorkers  == IF NTasks < NProc THEN NTasks ELSE NProc
@@ -36,10 +40,11 @@ VARIABLES nextChunk,   \* index of the next chunk on the queue
           chunkN,      \* chunkN[c] = FFT length stored in the settings object of chunk c
           out,         \* out[f] = FFT length the file was processed with (0 = not yet written)
           wrote        \* wrote[f] = the <<distribution_mc, distribution_fn>> the result of f was written with
-vars == <<Files, NProc, opts, nextChunk, cur, chunkN, out, wrote>>
+vars == <<Files, NProc, opts, csz, nextChunk, cur, chunkN, out, wrote>>
 
 FileSet == { Files[i] : i \in 1..NTasks }
 Init == /\ Files \in Batches /\ NProc \in NProcs /\ opts \in OptSets
+        /\ csz \in (IF AnyChunking THEN 1..Len(Files) ELSE {IF Len(Files) \div NProc >= 1 THEN Len(Files) \div NProc ELSE 1})
         /\ wrote = [f \in FileSet |-> <<>>]
         /\ nextChunk = 1
         /\ cur = [w \in Workers |-> <<0, 0>>]
@@ -49,7 +54,7 @@ Init == /\ Files \in Batches /\ NProc \in NProcs /\ opts \in OptSets
 Take(w) == /\ cur[w][1] = 0 /\ nextChunk <= NChunks
            /\ cur' = [cur EXCEPT ![w] = <<nextChunk, 1>>]
            /\ nextChunk' = nextChunk + 1
-           /\ UNCHANGED <<chunkN, out, wrote, Files, NProc, opts>>
+           /\ UNCHANGED <<chunkN, out, wrote, Files, NProc, opts, csz>>
 
 ProcessNext(w) ==
     LET c == cur[w][1]
@@ -61,7 +66,7 @@ ProcessNext(w) ==
                /\ wrote' = [wrote EXCEPT ![f] = IF SwapOptions THEN <<opts[2], opts[1]>> ELSE opts]
                /\ chunkN' = [chunkN EXCEPT ![c] = IF SharedPerChunk THEN n ELSE @]
         /\ cur' = [cur EXCEPT ![w] = IF k < Len(Chunk(c)) THEN <<c, k + 1>> ELSE <<0, 0>>]
-        /\ UNCHANGED <<nextChunk, Files, NProc, opts>>
+        /\ UNCHANGED <<nextChunk, Files, NProc, opts, csz>>
 
 TakeAny == \E w \in Workers : Take(w)
 ProcessAny == \E w \in Workers : ProcessNext(w)
